@@ -331,7 +331,7 @@ func TestC09Chains(t *testing.T) {
 		setRoots([]*genCert{pki.roots["accepted"]}, "back to one root")
 	}
 	laterAccepted := false
-	n := pick(1200, 30000) / shards
+	n := pick(3000, 30000) / shards
 	accepted := 0
 	type okCase struct {
 		k    c09Knobs
